@@ -33,6 +33,20 @@ func checkRangeReentryAgreement(p *Program, r *Report, rule string) {
 			}
 			n++
 			filter := args[len(args)-1]
+			for i := 0; i < 4; i++ {
+				switch y := filter.(type) {
+				case *ssa.MakeInterface:
+					filter = y.X
+					continue
+				case *ssa.ChangeType:
+					filter = y.X
+					continue
+				case *ssa.Convert:
+					filter = y.X
+					continue
+				}
+				break
+			}
 			var body *ssa.Function
 			switch y := filter.(type) {
 			case *ssa.MakeClosure:
